@@ -23,21 +23,21 @@ CHECKS = {
 
 CHECKS["C02"] = dict(
     engine="W-NET",
-    technique=TECH + "ledger oracle (accept => that key genuinely signed exactly these protected/payload/signature bytes) over channel faults on real in-flight tokens; every single-bit flip of 14 tokens enumerated inside the search",
-    text="Seeded exploration of attester -> channel -> verifier runs: real tokens of all seven algorithms are damaged in flight (bit flips, byte edits, truncation, extension, cross-token splices of protected/payload/signature, header surgery incl. alg moved to the unprotected bucket / nil payload / empty signature, inflated length fields, concatenation) and misrouted to verifiers holding other keys; acceptance is allowed only for a (protected,payload,signature) triple the holder of that key produced. One exhaustive sub-space per batch: all single-bit flips of one token per algorithm x profile.",
+    technique=TECH + "ledger oracle (accept => that key genuinely signed exactly these protected/payload/signature bytes) over channel faults on real in-flight tokens; every single-bit flip of 19 tokens (7 algorithms x 2 built-in profiles + 5 extension families) enumerated inside the search",
+    text="Seeded exploration of attester -> channel -> verifier runs: real tokens of all seven algorithms are damaged in flight (bit flips, byte edits, truncation, extension, cross-token splices of protected/payload/signature, header surgery incl. alg moved to the unprotected bucket / nil payload / empty signature, inflated length fields, concatenation, edits of the signed payload as a CBOR tree incl. re-typings and re-encodings a decode/encode round trip would undo) and misrouted to verifiers holding other keys; a third of the verifiers touch the decoded Evidence (re-attach its claims, read/validate/encode them, try another key) before asking for the verdict; acceptance is allowed only for a (protected,payload,signature) triple the holder of that key produced. One exhaustive sub-space per batch: all single-bit flips of one token per algorithm x built-in profile and one per extension family.",
     note="Trusts the ledger (all signing goes through the harness), the harness CBOR walker (go-cose's decoder only as a fallback view), and the deterministic signing wrappers. ECDSA malleability is out of reach of the faults. Completeness (nothing genuine is rejected) is C03's half.",
     ref="DESIGN.md §4 C02")
 CHECKS["C03"] = dict(
     engine="W-NET",
     technique=TECH + "conservation oracle on the fault-free arm of the attester/channel/verifier world: signed payload = validated encoding, decoded = original getter for getter, verifies in place, after decode and under go-cose directly",
-    text="Seeded exploration of fault-free attester -> verifier round trips over generated valid claims-sets (both profiles and an extension profile; built by field assignment or through setters), all seven algorithms and 13 pool keys, reused and fresh Evidence objects: tag-18 framing, payload byte-identical to ValidateAndEncodeClaimsToCBOR, protected alg, Verify on the signing Evidence, go-cose Verify with empty external data, decode-and-validate, getter-for-getter equality, decoded claims = decoding of the covered payload.",
+    text="Seeded exploration of fault-free attester -> verifier round trips over generated valid claims-sets (both profiles and five extension families: plain, wide with up to 282 claims, own component type in a re-used P2Claims, plain-kind optional claims, over profile 1; built by field assignment or through setters), all seven algorithms and 13 pool keys, reused and fresh Evidence objects: tag-18 framing, payload byte-identical to ValidateAndEncodeClaimsToCBOR, protected alg, Verify on the signing Evidence, go-cose Verify with empty external data, decode-and-validate, getter-for-getter equality, decoded claims = decoding of the covered payload.",
     note="'Valid' is the library's own Validate(); the space of valid claims-sets is sampled. Same trusted base as C02.",
     ref="DESIGN.md §4 C03")
 
 CHECKS["C11"] = dict(
     engine="W-HIST",
     technique=TECH + "differential oracle against the same profile's own Validate() on probe objects, before/after observation of failed calls, rebuild-in-permuted-order comparison; exhaustive byte-length prelude",
-    text="Seeded exploration of setter histories (1..40 calls, valid/invalid/repeated, on profile-1, profile-2 and two extension claims-sets, a software component and a component container): accept-iff against Validate() of an otherwise valid probe that received the value without the setter; exact getter value and no other claim moved on success; full observation (getters, validation class, CBOR and JSON bytes) unchanged on failure; validates once every mandatory claim was set; a fresh object rebuilt from the last successful call per claim in permuted order and with repetition encodes identically. Every byte-string setter is swept over lengths 0..80 in every batch.",
+    text="Seeded exploration of setter histories (1..40 calls, valid/invalid/repeated, on profile-1, profile-2 and two extension claims-sets, a software component and a component container): accept-iff against Validate() of an otherwise valid probe that received the value without the setter; exact getter value and no other claim moved on success; full observation (getters, validation class, CBOR and JSON bytes, exported fields rendered without calling a method) unchanged on failure; SetSoftwareComponents agrees with the exported ValidateSwComponents; validates once every mandatory claim was set; a fresh object rebuilt from the last successful call per claim in permuted order and with repetition encodes identically. Every byte-string setter is swept over lengths 0..80 in every batch.",
     note="Relative oracle: a validation boundary moved consistently in setter and validator is (correctly) not reported here - that is C01/C14. Trusts the probe builder (exported struct fields, container codec) and the observation function.",
     ref="DESIGN.md §4 C11")
 
@@ -45,13 +45,13 @@ CHECKS["C18"] = dict(
     engine="W-OBS",
     technique=TECH + "observation snapshots (public API only) of every pool object before / after every read-side call and every buffer overwrite; twin objects observed in opposite orders; fresh-Evidence-per-key reference for Verify verdicts",
     text="Seeded exploration of read-only histories over pools of claims-sets and Evidence objects in assorted states (built valid/invalid, decoded from genuine or structurally damaged and re-signed CBOR/JSON/COSE messages, signing and decoded Evidence) with values shared across objects and profiles: every read-side call is made twice back to back and compared with its earlier results, is also made as the very first call on a fresh twin, and after every step every object of the pool is re-observed in a rotating order; the channel that owns the receive buffers zeroes, scrambles or reuses them after decoding and nothing observable (including Verify verdicts under 13 keys and nil) may move.",
-    note="Observation is through getters, Validate class, CBOR/JSON bytes and Verify verdicts, not reflection: unobservable internal changes are not reported. Trusts the observation function and the deterministic signing wrappers.",
+    note="Observation is through getters, Validate class, CBOR/JSON bytes, Verify verdicts and a reflection walk over EXPORTED fields only (nil / empty / populated told apart): changes to unexported internals are not reported. Trusts the observation function and the deterministic signing wrappers.",
     ref="DESIGN.md §4 C18")
 
 CHECKS["C05"] = dict(
     engine="W-DEC",
-    technique=TECH + "invariant 'the receiving actor never panics' over channel / Byzantine-sender faults on real messages delivered to all 43 decode entry points, with truncation-at-every-offset and every-head-byte sweeps; one child process per trace",
-    text="Seeded exploration of the receiving side: real COSE / CBOR / JSON / extension-profile / component-list / helper-struct messages are damaged in flight (bit flips, byte edits, truncation, padding, inflated lengths, concatenation, header surgery, deep nesting) or structurally mutated at any tree node and re-signed by a Byzantine attester, and every delivered byte string is handed to all 43 decoding entry points; whatever decodes is validated, read through every getter, re-encoded (plain and validating, CBOR and JSON) and verified under every key kind and nil. A recovered panic, or a fatal crash of the receiving child, is the violation. Sweeps in every batch: truncation at every offset and substitution of every CBOR head byte of one message per kind x profile.",
+    technique=TECH + "invariant 'the receiving actor never panics' over channel / Byzantine-sender faults on real messages delivered to all 55 decode entry points, with truncation-at-every-offset, every-head-byte, tiny-input, tag-prefix and nesting-depth sweeps; one child process per trace",
+    text="Seeded exploration of the receiving side: real COSE / CBOR / JSON / extension-profile / component-list / helper-struct messages are damaged in flight (bit flips, byte edits, truncation, padding, inflated lengths, concatenation, header surgery, deep nesting) or structurally mutated at any tree node and re-signed by a Byzantine attester, and every delivered byte string is handed to all 55 decoding entry points (incl. the deprecated names, five extension claims types and ten helper struct shapes); whatever decodes is validated, read through every getter, re-encoded (plain and validating, CBOR and JSON) and verified under every key kind and nil. A recovered panic, or a fatal crash of the receiving child, is the violation. Sweeps in every batch: truncation at every offset and substitution of every CBOR head byte of one message per kind x profile; every one-byte input and the two-byte inputs behind argument-carrying first bytes (all 65536 in the thorough tier); every message behind 30 tag numbers in all five head widths; a self-nesting struct chain of every depth 1..34.",
     note="Reach is what the fault kinds produce from real messages: much thinner than coverage-guided fuzzing, which is outside this technique and is not substituted (DESIGN.md says so). byz.tree / json.member are structure-aware mutation under a Byzantine-sender name.",
     ref="DESIGN.md §4 C05")
 CHECKS["C06"] = dict(
@@ -64,7 +64,7 @@ CHECKS["C06"] = dict(
 CHECKS["C16"] = dict(
     engine="W-REG",
     technique=TECH + "reference model of the register + differential probe set evaluated before/after every registration attempt + mutate-one-read-the-other + JSON dispatch repeated under simulator-chosen map iteration orders (seam T1); one fresh process per history",
-    text="Seeded exploration of register histories from the pristine state: registrations of five profile kinds under new, duplicate and built-in names are judged by a name->kind model; around every attempt ~50 probe documents (both serialisations) and NewClaims of every name are evaluated, and only lookups declaring a newly registered name may change; two instances (NewClaims twice, two profiles, one buffer decoded twice) are driven through 15 mutation kinds on one side while the other is observed; every JSON dispatch is repeated under reverse and permuted registry iteration orders and must give the same outcome.",
+    text="Seeded exploration of register histories from the pristine state: registrations of fourteen profile kinds under new, duplicate and built-in names (URIs, a URN, an OID, plain strings, mixed case, padded) are judged by a name->kind model; around every attempt ~50 probe documents (both serialisations) and NewClaims of every name are evaluated, only lookups declaring a newly registered name may change, and those that declare it and that the kind itself decodes must now be answered by it; two instances (NewClaims twice, two profiles, one buffer decoded twice) are driven through 15 mutation kinds on one side while the other is observed; every JSON dispatch is repeated under reverse and permuted registry iteration orders and must give the same outcome.",
     note="Iteration orders are chosen by the simulator through the T1 rewrite of the library's only map range (a newly added map range is woven automatically; one with a side-effecting operand stops the build, exit 2). Trusts the hook file injected into the scratch copy (adds code only).",
     ref="DESIGN.md §4 C16")
 CHECKS["C07"] = dict(
@@ -77,8 +77,8 @@ CHECKS["C07"] = dict(
 CHECKS["C17"] = dict(
     engine="W-CONC",
     technique=TECH + "real goroutines released one at a time by a seeded turn scheduler at yield points woven before every library statement; race detector on the race-instrumented library (scheduler invisible to it) + equality with a sequential run + shared-object observation; recorded schedules replayed and minimised",
-    text="Seeded exploration of schedules: 2..64 client goroutines run read-side operations on private objects and, read-only, on shared claims-sets and shared decoded Evidence; at each of ~990 yield points woven into the two library packages the PRNG (or the recorded schedule) names the task that runs next (statement-granular, 1/4, 1/32 switch probability, or PCT with 1..3 change points). Oracles: any race-detector report with a non-simulator frame; every operation's result equals the sequential run's; shared objects look like identically built untouched ones afterwards. A failing run's schedule is recorded as a run-length list, replayed in a fresh process and minimised (fewer operations, then fewer context switches).",
-    note="Interleaving granularity is the library statement; calls into dependencies are atomic steps. GOMAXPROCS=1 + asyncpreemptoff so that the choice of who runs is the simulator's alone. The race detector's bounded per-word history is mitigated by short runs; the equality oracle does not depend on it.",
+    text="Seeded exploration of schedules: 2..64 client goroutines run read-side operations on private objects (one claims-set in ten with 257..300 software components; deprecated decoder names included) and, read-only, on shared claims-sets and shared decoded Evidence; at each of ~990 yield points woven into the two library packages the PRNG (or the recorded schedule) names the task that runs next (statement-granular, 1/4, 1/32 switch probability, or PCT with 1..3 change points). Oracles: any race-detector report with a non-simulator frame; every operation's result equals the sequential run's; shared objects look like identically built untouched ones afterwards. A failing run's schedule is recorded as a run-length list, replayed in a fresh process and minimised (fewer operations, then fewer context switches).",
+    note="Interleaving granularity is the library statement; calls into dependencies are atomic steps; a task holding a sync.Mutex/RWMutex or inside sync.Once.Do (recognised by the weaver) does not park. GOMAXPROCS=1 + asyncpreemptoff so that the choice of who runs is the simulator's alone. The race detector's bounded per-word history is mitigated by short runs; the equality oracle does not depend on it.",
     ref="DESIGN.md §4 C17")
 
 NA = {
